@@ -5,6 +5,14 @@ import json, sys
 
 CHECKS = {
  # id: (technique, level text, level note, design ref)
+ "C02": ("proptest-driven generation over the full operation table (every Add/Sub/Mul/Neg impl, 7 operand kinds, both orders, Sum/Product, term iterator) vs exact polynomial ring operations",
+         "Generated-input search with an independent exact-rational polynomial oracle, coefficient by coefficient: bit-exact for dyadic operands, rigorous rounding + documented epsilon-drop allowance otherwise; every table row is required to be exercised.",
+         "Trusts num-bigint/num-rational and the raw-field reader; Function operands have their oneof set; quadratic operands have no duplicated position (per the property's quantifier).",
+         "DESIGN.md §5 C02"),
+ "C05": ("proptest-driven generation of valid instances x state classes (placed tolerances, bound violations, missing variables) vs an independent reference evaluator over exact rationals",
+         "Generated-input search; the oracle implements the statement literally (objective, every active+removed constraint once with metadata, both feasibility flags, completed state, rejections); flags are only asserted outside the rounding margin around 1e-6.",
+         "Trusts the reference evaluator in harness/src/model.rs and num-rational; states do not assign dependent variables.",
+         "DESIGN.md §5 C05"),
  "C01": ("proptest-driven choice-tape generation of function messages in every representation vs exact-rational oracle (bit-exact in dyadic regime, rigorous rounding bound otherwise)",
          "Generated-input search: every oneof state and wire-legal representation of functions up to degree 4, total and one-missing states, typed and sample-set entry points, compared against an exact BigRational evaluation of the raw message fields; no absence proof.",
          "Trusts num-bigint/num-rational, proptest's runner (search only) and the harness's raw-field reader; coefficient/value magnitudes bounded away from f64 overflow.",
